@@ -10,9 +10,9 @@ L = env.lib()
 
 ID = "C14"
 LEVEL = "exploration"
-RULE = ("(a) concurrent: counter start in {0,1,5,2^32-4..2^32-1} set on a fresh connected device (no live streams), then 2-3 concurrent opens (shell / stat / streaming_shell kept open / an OPEN the device never answers) under the "
+RULE = ("(a) concurrent: counter start in {0,1,5,2^32-4..2^32-1} set on a fresh connected device (no live streams), then 2-3 concurrent opens (shell / stat / streaming_shell kept open / an OPEN the device never answers / a caller that closes, reconnects and opens) under the "
         "cooperative thread scheduler with OPCODE-level preemption inside _open (every bytecode of the id allocation is a yield point) plus lock/transport yield points, Hypothesis-generated schedules and "
-        "complete enumeration of all schedules with <=1 (quick) / <=2 (thorough) preemptions for 4 workloads x 3 counter starts; asyncio task scheduler for the async API. (b) sequential histories of up to 8 opens "
+        "complete enumeration of all schedules with <=1 (quick) / <=2 (thorough) preemptions for 5 workloads x 3 counter starts; asyncio task scheduler for the async API. (b) sequential histories of up to 8 opens "
         "across the 2^32 wrap, some streams kept open. Oracle = monitor: every OPEN arg0 in [1,2^32-1]; no two streams live at the same time share arg0; every operation returns the model's value. "
         "Non-trivial: a preemption fell inside _open, or the run crossed 2^32. Distinct = case hash / (workload, start, plan).")
 ASSUMPTIONS = ["the counter is preset through the object's id-counter attribute to reach the wrap without 2^32 opens", "opcode-level tracing via sys.settrace(f_trace_opcodes) in worker threads"]
@@ -26,6 +26,8 @@ OPS = {
     "stat": {"op": "stat", "path": "/f"},
     "keep": {"op": "streaming_shell", "cmd": "k", "decode": False, "take": 1},
     "dead": {"op": "shell", "cmd": "dead", "decode": False, "read_timeout_s": 0.5},      # the device never answers this OPEN: the open fails with a timeout
+    # one caller closes, reconnects and opens a stream that stays open, while other callers are in the middle of their own opens
+    "reconnect-keep": {"op": "seq", "ops": [{"op": "close"}, {"op": "connect"}, {"op": "streaming_shell", "cmd": "k", "decode": False, "take": 1}]},
 }
 
 
@@ -56,8 +58,8 @@ def judge(case, r):
     for op, res in zip(case["ops"], r.results):
         if "exc" in res and res["exc"] == "error":      # struct.error: id does not fit 32 bits
             return Violation("open-id-out-of-range", "%s: %s" % (res["exc"], res["msg"]))
-    if r.dropped_clse:
-        return None     # K1 (C06) may time an operation out; ids were already judged
+    if r.dropped_clse or any(o["op"] == "seq" for o in case["ops"]):
+        return None     # K1 (C06) may time an operation out, a concurrent close()/connect() may fail other operations; ids were already judged
     for op, res in zip(case["ops"], r.results):
         v = expect.compare(case, op, res, case["device"])
         if v is not None:
@@ -113,7 +115,7 @@ def strip(fn):
     return g
 
 
-ENUM_WORKLOADS = [["shell-a", "stat"], ["keep", "shell-b", "stat"], ["stat", "keep"], ["dead", "keep", "stat"]]
+ENUM_WORKLOADS = [["shell-a", "stat"], ["keep", "shell-b", "stat"], ["stat", "keep"], ["dead", "keep", "stat"], ["stat", "reconnect-keep"]]
 ENUM_STARTS = [0, 2 ** 32 - 2, 2 ** 32 - 1]
 
 
@@ -173,6 +175,12 @@ def check_seq(c):
     for op, res in zip(out.ops[1:], out.results[1:]):
         if res.get("exc") == "error":
             return Violation("open-id-out-of-range", "%s" % res["msg"]), info
+        if op["op"] == "seq":
+            for sub, sres in zip(op["ops"], res.get("ok") or []):
+                v = expect.compare(case, sub, sres, case["device"])
+                if v is not None:
+                    return Violation("wrong-result:" + v.rule, v.detail), info
+            continue
         v = expect.compare(case, op, res, case["device"])
         if v is not None:
             return Violation("wrong-result:" + v.rule, v.detail), info
